@@ -508,8 +508,15 @@ namespace vf::rt {
                         if (!stuck) { quiet = 0; continue; }
                         if (quiet == 0) first_phase = ph;
                         if (ph != first_phase) { quiet = 0; continue; }
-                        if (++quiet >= 3 * K)
-                            fail_now("stuck_in_stop", "every generated task has finished and no task was activated for " + std::to_string(3 * K) +
+                        // (this rule has no pool state to look at, only "nothing was activated": a pending task whose worker is starved of
+                        // CPU on a loaded machine looks the same for a while, so the window is long: 4 s, 8 s when the machine is overloaded)
+                        int need = 100;
+                        {
+                            double la[1] = {0};
+                            if (getloadavg(la, 1) == 1 && la[0] > 2.0 * static_cast<double>(std::thread::hardware_concurrency())) need = 200;
+                        }
+                        if (++quiet >= need)
+                            fail_now("stuck_in_stop", "every generated task has finished and no task was activated for " + std::to_string(need) +
                                     " samples, but the global activity count is still " + std::to_string(static_cast<long long>(pika::threads::detail::get_global_activity_count())) +
                                     ": wait()/stop() can never return");
                         continue;
